@@ -164,7 +164,7 @@ def run_mode(exe, puppet, mode, scripts, tag, timeout=900):
     sp, cp, op = d / f"{mode}.{tag}.scripts", d / f"{mode}.{tag}.cfg.json", d / f"{mode}.{tag}.out"
     vlib.ndjson_write(sp, scripts)
     cp.write_text(json.dumps({"puppet": str(exe_p), "source": str(rs), "lines": lines, "scripts": str(sp),
-                              "fields": c15_puppet.pack_layout(), "rounds": 3 * len(scripts) + 50}))
+                              "fields": c15_puppet.pack_layout(), "rounds": 6 * len(scripts) + 50}))
     try:
         p = subprocess.run([str(exe), mode, str(cp), str(op)], capture_output=True, text=True, timeout=timeout,
                            env=dict(os.environ, RUST_BACKTRACE="0"), start_new_session=True)
